@@ -71,10 +71,13 @@ def c_case(case, res):
     if res['u'] is None:
         seen = 'None'
     else:
-        ulen, uiter, gets = res['u']
-        blen, bsh, bleg = res['b']
-        seen = '(Some %s)' % ctuple(ctuple(cnat(ulen), c_lobs(uiter), clist([c_gobs(g) for g in gets])),
-                                    ctuple(cnat(blen), c_lobs(bsh), c_lobs(bleg)))
+        ulen, uiter, gets, uz = res['u']
+        blen, bsh, bleg, bz = res['b']
+
+        def c_z(zs):
+            return clist([ctuple(cZ(z), c_gobs(g)) for z, g in zs])
+        seen = '(Some %s)' % ctuple(ctuple(cnat(ulen), c_lobs(uiter), clist([c_gobs(g) for g in gets]), c_z(uz)),
+                                    ctuple(cnat(blen), c_lobs(bsh), c_lobs(bleg), c_z(bz)))
     return ctuple(P9.KIND_C[case['kind']], P9.c_srcs(case), P9.c_inputs(case), P9.c_mat(case), P9.c_stream(case),
                   c_rows(case['matrix']), clist([ctuple(cN(s), cN(t)) for s, t in case['matmap']]),
                   cnat(res['code']), seen)
